@@ -1477,13 +1477,38 @@ def run(ctx):
             if nontrivial(r_['q']):
                 ctx.nt(['C', r_['q']])
         ctx.sample({'kind': 'C-record', 'q': recs[0]['q'], 'nb': bytes(recs[0]['nb']).decode(), 'na': bytes(recs[0]['na']).decode()})
-        rejected = pk.judge(ctx, 'NdnPacketsCertTrace', 'NdnPacketsCertTrace.cfg', recs, 'c16-traces')
+        rejected = judge_certs(ctx, recs, 'c16-traces')
         ctx.traces += len(recs)
         ctx.evaluations += len(recs)
         ctx.note('C: %d recorded issuances judged by TLC, %d rejected' % (len(recs), len(rejected)))
         report_rejected(ctx, recs, rejected, 'C')
         hist_stage_c(ctx, pool)
         parse_stage_c(ctx, pool)
+
+
+def judge_certs(ctx, recs, name):
+    """NdnPacketsCertTrace on recorded issuances. Corrupted copies of accepted records ride along: the Content clauses of
+    the judge must reject each of them with its own code (else the judge is not judging)."""
+    def own(r):
+        q = r['q']
+        return not r['refused'] and r['content'] == {'is': 'given', 'key': 'subject', 'carried': True} and \
+            q['fn'] in ('self_sign', 'sign_req') and q['sg']['kind'] in CHECKERS
+    base = next((r for r in recs if own(r) and r['q'].get('enc', 'spki') != 'spki'), None) or next((r for r in recs if own(r)), None)
+    canaries = []
+    if base is not None:
+        for code, patch in (('7', {'is': 'other'}), ('8', {'key': 'other-key'}), ('8', {'key': 'unreadable'}), ('9', {'carried': False})):
+            c = json.loads(json.dumps(base))
+            c['content'].update(patch)
+            canaries.append((code, c))
+    rej = pk.judge(ctx, 'NdnPacketsCertTrace', 'NdnPacketsCertTrace.cfg', recs + [c for _, c in canaries], name)
+    got = {i: str(code).strip() for i, code in rej}
+    # (a base record the judge rejects on another clause - a changed tree - makes the canaries meaningless: skipped)
+    if base is not None and got.get(recs.index(base)) is None:
+        for k, (code, _c) in enumerate(canaries):
+            if got.get(len(recs) + k) != code:
+                raise MachineryError('NdnPacketsCertTrace: a record with a corrupted Content observation got verdict %r, expected %s'
+                                     % (got.get(len(recs) + k, 'accepted'), code))
+    return [(i, code) for i, code in rej if i < len(recs)]
 
 
 def report_rejected(ctx, recs, rejected, stage):
